@@ -17,7 +17,7 @@ from common import Case
 FAMILY = "tdigest"
 CORR = "TDigest"
 FAMNUM = 8
-ORACLES = {"prop_ok": 0, "tie_ok": 1, "c15_ok": 2}
+ORACLES = {"prop_ok": 0, "tie_ok": 1, "c15_ok": 2, "codec_ok": 3, "twin_ok": 4, "foreign_ok": 5, "nopanic_ok": 6}
 GEN_MODULES = [("GenTDigest", ["tdigest/serialization.rs", "tdigest/sketch.rs"],
                 ["PREAMBLE_LONGS_EMPTY_OR_SINGLE", "PREAMBLE_LONGS_MULTIPLE", "SERIAL_VERSION", "FLAGS_IS_EMPTY",
                  "FLAGS_IS_SINGLE_VALUE", "FLAGS_REVERSE_MERGE", "COMPAT_DOUBLE", "COMPAT_FLOAT", "BUFFER_MULTIPLIER",
@@ -25,9 +25,9 @@ GEN_MODULES = [("GenTDigest", ["tdigest/serialization.rs", "tdigest/sketch.rs"],
                 {"tdigest/sketch.rs": ["make"]})]
 OPNAMES = {0: "new", 1: "update", 2: "merge", 3: "rank", 4: "quantile", 5: "cdf", 6: "pmf", 7: "total_weight",
            8: "min_value", 9: "max_value", 10: "is_empty", 11: "dump", 12: "peek", 14: "roundtrip", 15: "deserialize",
-           16: "freeze_unfreeze", 17: "k", 18: "rank_of_quantile"}
+           16: "freeze_unfreeze", 17: "k", 18: "rank_of_quantile", 19: "fork", 20: "image", 21: "deserialize_f32"}
 # op codes compared observation-by-observation with the exact part of the model ([run])
-EXACT_MASK = [0, 1, 7, 8, 9, 10, 14, 15, 17]
+EXACT_MASK = [0, 1, 7, 8, 9, 10, 14, 15, 17, 19, 21]
 NAN = 0x7ff8000000000000
 INF = 0x7ff0000000000000
 NINF = 0xfff0000000000000
@@ -411,6 +411,326 @@ def edge_case(rng, cid):
     return Case(cid, [], b.ops, tag="td-edge-%d" % r)
 
 
+# ======================= codec legs (C11, C12, C13, C14, C18 parts) =======================
+REF_FILES = ["tdigest_ref_k100_n10000_double.sk", "tdigest_ref_k100_n10000_float.sk"]
+
+
+def f32bits(x):
+    return struct.unpack("<I", struct.pack("<f", float(x)))[0]
+
+
+def f32round(x):
+    return struct.unpack("<f", struct.pack("<f", float(x)))[0]
+
+
+def enc_own(k, mn, mx, cs, buffered=(), rev=False, flt=False, flag_hi=0, unused=0):
+    """independent encoder of the DataSketches layout (Appendix A), double or float flavour"""
+    total = sum(w for _, w in cs) + len(buffered)
+    fv = (lambda x: struct.pack("<f", x)) if flt else (lambda x: struct.pack("<d", x))
+    fw = (lambda w: struct.pack("<I", w)) if flt else (lambda w: struct.pack("<Q", w))
+    fl = (4 if rev else 0) | flag_hi
+    if total == 0:
+        return list(bytes([1, 1, 20]) + struct.pack("<H", k) + bytes([1 | fl]) + struct.pack("<H", unused))
+    if total == 1 and len(cs) == 1 and not buffered and mn == mx == cs[0][0]:
+        return list(bytes([1, 1, 20]) + struct.pack("<H", k) + bytes([2 | fl]) + struct.pack("<H", unused) + fv(mn))
+    b = bytes([2, 1, 20]) + struct.pack("<H", k) + bytes([fl]) + struct.pack("<H", unused)
+    b += struct.pack("<II", len(cs), len(buffered)) + fv(mn) + fv(mx)
+    for m, w in cs:
+        b += fv(m) + fw(w)
+    for v in buffered:
+        b += fv(v)
+    return list(b)
+
+
+def enc_ref(k, mn, mx, cs, flt=False, unused=(210, 1050)):
+    """the reference implementation's big-endian encodings (asBytes / asSmallBytes)"""
+    if not flt:
+        b = struct.pack(">i", 1) + struct.pack(">ddd", mn, mx, float(k)) + struct.pack(">i", len(cs))
+        for m, w in cs:
+            b += struct.pack(">dd", float(w), m)
+    else:
+        b = struct.pack(">i", 2) + struct.pack(">dd", mn, mx) + struct.pack(">f", float(k)) + struct.pack(">hh", *unused)
+        b += struct.pack(">h", len(cs))
+        for m, w in cs:
+            b += struct.pack(">ff", float(w), m)
+    return list(b)
+
+
+def random_abstract(rng, flt=False, maxn=40, maxw=2 ** 20, with_buffer=True):
+    """sorted means, positive weights, min <= first mean, last mean <= max, tight unit ends"""
+    n = rng.choice([1, 2, 2, 3, 4, 5, 8, 12, maxn])
+    bits = rng.choice([3, 6, 16])
+    means = sorted(set(dyadic(rng, bits, -4, 6) for _ in range(n)))
+    if rng.random() < 0.2 and len(means) > 2:
+        means[1] = means[0]                          # duplicate means are legal
+    ws = [rng.choice([1, 1, 2, 3, 7, 64, 1000, rng.randint(1, maxw)]) for _ in means]
+    mn = means[0] - rng.choice([0, 0, 1, 0.5, 16]); mx = means[-1] + rng.choice([0, 0, 1, 0.25, 8])
+    if ws[0] == 1:
+        mn = means[0]
+    if ws[-1] == 1:
+        mx = means[-1]
+    nb = rng.choice([0, 0, 0, 1, 2, 5, 17]) if with_buffer else 0
+    # buffered values of a real digest: the centroids end in unit centroids sitting on the old extremes;
+    # a buffered value lies between them or is a new extreme (anything else compresses into the
+    # inconsistent class of known finding D17)
+    if nb:
+        ws[0] = ws[-1] = 1; mn, mx = means[0], means[-1]
+    lo, hi = means[0], means[-1]
+    buffered = [lo + (hi - lo) * rng.randrange(0, 65) / 64 for _ in range(nb)] if hi > lo else [lo] * nb
+    if nb and rng.random() < 0.3:
+        mn = mn - 1; buffered[0] = mn
+    if nb > 1 and rng.random() < 0.3:
+        mx = mx + 2; buffered[-1] = mx
+    if flt:
+        means = [f32round(m) for m in means]; mn, mx = f32round(mn), f32round(mx); buffered = [f32round(v) for v in buffered]
+    return mn + 0.0, mx + 0.0, list(zip(means, ws)), [v + 0.0 for v in buffered]
+
+
+def variant_image(rng):
+    """(op code, bytes, k, total, nb, mn, mx, means) for a random format variant"""
+    k = rng.choice([10, 20, 100, 200, 500, 2000, rng.randint(10, 3000)])
+    kind = rng.choice(["own", "own", "own-f32", "own-f32", "ref-d", "ref-f", "empty", "single", "single-f32"])
+    flag_hi = rng.choice([0, 0, 0, 8, 0x80, 0xf8]); unused = rng.choice([0, 0, 0xffff, rng.getrandbits(16)])
+    rev = rng.random() < 0.5
+    if kind == "empty":
+        return rng.choice([15, 21]), enc_own(k, 0, 0, [], rev=rev, flag_hi=flag_hi, unused=unused), k, 0, 0, None, None, []
+    if kind.startswith("single"):
+        flt = kind.endswith("f32"); v = dyadic(rng, 12, -6, 8)
+        return (21 if flt else 15), enc_own(k, v, v, [(v, 1)], rev=rev, flt=flt, flag_hi=flag_hi, unused=unused), k, 1, 0, v, v, [v]
+    flt = kind in ("own-f32", "ref-f")
+    mn, mx, cs, buffered = random_abstract(rng, flt=flt, maxw=(2 ** 20 if kind != "ref-f" else 2 ** 16), with_buffer=kind.startswith("own"))
+    total = sum(w for _, w in cs)
+    means = [m for m, _ in cs]
+    if kind.startswith("own"):
+        if total + len(buffered) == 1:
+            buffered = [mn]
+        return (21 if flt else 15), enc_own(k, mn, mx, cs, buffered, rev=rev, flt=flt, flag_hi=flag_hi, unused=unused), \
+            k, total + len(buffered), len(buffered), mn, mx, means
+    k = min(k, 2000)
+    return rng.choice([15, 21]), enc_ref(k, mn, mx, cs, flt=(kind == "ref-f")), k, total, 0, mn, mx, means
+
+
+def load_ref(name):
+    path = os.path.join(os.environ.get("VERIF_REPO", "/repo"), "datasketches", "tests", "test_data", name)
+    return list(open(path, "rb").read())
+
+
+def deser_into(b, slot, code, img, k, total, nb, mn, mx):
+    b.ops.append((code, [slot] + img))
+    s = Sim(k); s.n = total; s.nb = nb; s.vals = None; s.lo, s.hi = mn, mx
+    b.sims[slot] = s
+
+
+def foreign_case(rng, cid):
+    """C13: every variant a foreign writer emits, decoded and then used"""
+    b = Builder(rng)
+    r = rng.random()
+    if r < 0.12:
+        name = rng.choice(REF_FILES)
+        deser_into(b, 0, rng.choice([15, 21]), load_ref(name), 100, 10000, 0, 0.0, 9999.0)
+        means = [0.0, 2500.0, 5000.0, 7500.0, 9999.0]; mn, mx, total = 0.0, 9999.0, 10000
+        tag = "td-foreign-reffile"
+    else:
+        code, img, k, total, nb, mn, mx, means = variant_image(rng)
+        deser_into(b, 0, code, img, k, total, nb, mn, mx)
+        tag = "td-foreign"
+    b.scalars(0)
+    b.ops.append((12, [0]))
+    if total > 0:
+        mode = rng.choice([0, 1])
+        b.query(3, 0, mode, vgrid(rng, means, mn, mx)); b.query(4, 0, 1 - mode, qgrid(rng, total))
+        sp = splits(rng, mn, mx, means); b.query(5, 0, mode, sp); b.query(6, 0, mode, sp)
+    r = rng.random()
+    if r < 0.4:
+        for _ in range(rng.randint(1, 5)):
+            b.update(0, rng.choice([mn, mx] if total > 0 else [1.0]) if rng.random() < 0.5 else dyadic(rng, 6, -2, 4))
+        b.dump(0); b.scalars(0)
+    elif r < 0.7:
+        b.new(1, rng.choice([10, 100])); b.update(1, 3.0); b.update(1, -2.5)
+        b.merge(1, 0); b.scalars(1); b.dump(1)
+    elif r < 0.9:
+        b.roundtrip(0); b.scalars(0); b.dump(0)
+    return Case(cid, [], b.ops, tag=tag)
+
+
+def twin_do(b, src, dst, fn):
+    """apply fn (a Builder method call on src) and repeat every emitted op on dst right after it"""
+    start = len(b.ops)
+    fn(src)
+    new = b.ops[start:]; del b.ops[start:]
+    for c, a in new:
+        b.ops.append((c, a)); b.ops.append((c, [dst] + list(a[1:])))
+    import copy
+    b.sims[dst] = copy.deepcopy(b.sims[src])
+
+
+def codec_case(rng, cid, tier, twins=True):
+    """C11 / C12: states reached by histories; the crate's bytes (op 20), forks and twin behaviour"""
+    b = Builder(rng)
+    k = rng.choice([10, 10, 20, 30, 100, 200, 500, rng.randint(10, 500)])
+    b.new(0, k); b.new(2, rng.choice([k, 10, 100]))
+    shape = rng.choice(SHAPES)
+    n = rng.choice([0, 1, 2, 3, 5, 40, 300, 1200]) if tier == "quick" else rng.choice([0, 1, 2, 3, 50, 1000, 5000])
+    vals = stream(rng, shape, n)
+    for x in vals:
+        b.update(0, x)
+        if rng.random() < 0.01:
+            b.dump(0); b.ops.append((20, [0]))
+    for x in stream(rng, rng.choice(SHAPES), rng.choice([0, 1, 7, 100])):
+        b.update(2, x)
+    b.dump(0); b.ops.append((20, [0])); b.scalars(0)
+    if rng.random() < 0.3:
+        b.merge(0, 2); b.ops.append((20, [0]))
+    if not twins:
+        if rng.random() < 0.5:
+            b.freeze(0); b.ops.append((20, [0]))
+        b.dump(2); b.ops.append((20, [2]))
+        return Case(cid, [], b.ops, tag="td-layout-" + shape)
+    # fork and drive both copies in lock step
+    b.peek_if_dirty(0)
+    b.ops.append((19, [0, 1]))
+    import copy
+    b.sims[0].nb = 0
+    b.sims[1] = copy.deepcopy(b.sims[0])
+    sim = b.sims[0]
+    for _ in range(rng.randint(2, 6)):
+        r = rng.random()
+        if r < 0.35:
+            xs = stream(rng, rng.choice(SHAPES), rng.choice([1, 3, 30, 4 * capacity(k) + 5 if k <= 30 else 50]))
+            for x in xs:
+                twin_do(b, 0, 1, lambda s_, x=x: b.update(s_, x))
+        elif r < 0.5:
+            twin_do(b, 0, 1, lambda s_: b.merge(s_, 2))
+        elif r < 0.6:
+            twin_do(b, 0, 1, lambda s_: b.roundtrip(s_))
+        elif r < 0.7:
+            twin_do(b, 0, 1, lambda s_: b.freeze(s_))
+        else:
+            if sim.n > 0 and sim.lo is not None:
+                mode = rng.choice([0, 1])
+                vs = vgrid(rng, [], sim.lo, sim.hi) if abs(sim.lo) < 1e300 and abs(sim.hi) < 1e300 else [sim.lo, sim.hi]
+                qs = qgrid(rng, sim.n)
+                twin_do(b, 0, 1, lambda s_: b.query(3, s_, mode, vs))
+                twin_do(b, 0, 1, lambda s_: b.query(4, s_, mode, qs))
+        twin_do(b, 0, 1, lambda s_: (b.dump(s_), b.ops.append((20, [s_])), b.scalars(s_)))
+    return Case(cid, [], b.ops, tag="td-codec-" + shape)
+
+
+def py_total(img, flt):
+    """total weight the reader would compute from an (own-format or reference) image; None if it cannot be read"""
+    try:
+        bs = bytes(img)
+        if bs[:3] == b"\0\0\0":
+            ty = struct.unpack(">i", bs[:4])[0]
+            if ty == 1:
+                n = struct.unpack(">I", bs[28:32])[0]
+                return sum(int(min(max(struct.unpack(">d", bs[32 + 16 * i:40 + 16 * i])[0], 0), 2 ** 64 - 1)) for i in range(min(n, 4096)))
+            n = struct.unpack(">H", bs[28:30])[0]
+            return sum(int(min(max(struct.unpack(">f", bs[30 + 8 * i:34 + 8 * i])[0], 0), 2 ** 64 - 1)) for i in range(n))
+        if bs[5] & 1:
+            return 0
+        if bs[5] & 2:
+            return 1
+        nc, nb = struct.unpack("<II", bs[8:16])
+        if flt:
+            return sum(struct.unpack("<I", bs[28 + 8 * i:32 + 8 * i])[0] for i in range(min(nc, 4096))) + nb
+        return sum(struct.unpack("<Q", bs[40 + 16 * i:48 + 16 * i])[0] for i in range(min(nc, 4096))) + nb
+    except Exception:
+        return None
+
+
+def mutate(rng, img):
+    img = list(img); r = rng.random()
+    if r < 0.25 and img:
+        for _ in range(rng.choice([1, 1, 2, 4])):
+            i = rng.randrange(len(img)); img[i] ^= 1 << rng.randrange(8)
+    elif r < 0.4 and img:
+        i = rng.randrange(len(img)); img[i] = rng.choice([0, 1, 2, 0x7f, 0x80, 0xff])
+    elif r < 0.6 and len(img) >= 16:
+        # boundary values in the count fields (own format: nc @8, nb @12; reference: n @28)
+        off = rng.choice([8, 12, 28]) if len(img) >= 32 else rng.choice([8, 12])
+        v = rng.choice([0, 1, len(img), len(img) // 16 + 1, 0xffff, 0x10000, 0x7fffffff, 0x80000000, 0xffffffff, rng.getrandbits(32)])
+        img[off:off + 4] = list(struct.pack(rng.choice(["<I", ">I"]), v))
+    elif r < 0.7 and len(img) >= 8:
+        img[3:5] = list(struct.pack("<H", rng.choice([0, 9, 10, 65535, rng.getrandbits(16)])))      # k
+        if rng.random() < 0.5:
+            img[5] = rng.getrandbits(8)                                                               # flags
+    elif r < 0.85:
+        img = img[:rng.randrange(len(img) + 1)]                                                       # truncation
+    elif r < 0.93:
+        img = img + [rng.getrandbits(8) for _ in range(rng.choice([1, 7, 8, 16, 100]))]               # extension
+    else:
+        img = [rng.getrandbits(8) for _ in range(rng.choice([0, 1, 3, 8, 16, 32, 33, 64, 200]))]
+        if rng.random() < 0.5 and len(img) >= 3:
+            img[:3] = rng.choice([[2, 1, 20], [1, 1, 20], [0, 0, 0]])
+    return img
+
+
+def weird_float_image(rng):
+    """weights / means / extremes at the edges the readers must check: NaN, infinities, zero and huge weights"""
+    specials = [float("nan"), float("inf"), float("-inf"), 0.0, -0.0, 5e-324, 1.7976931348623157e308]
+    k = rng.choice([10, 100])
+    cs = [(1.0, 1), (2.0, rng.choice([0, 1, 2 ** 63, 2 ** 64 - 1, 2 ** 64 - 2])), (3.0, rng.choice([1, 2, 2 ** 63]))]
+    if rng.random() < 0.5:
+        i = rng.randrange(3); cs[i] = (rng.choice(specials), cs[i][1])
+    mn = rng.choice(specials + [1.0, 1.0, 1.0]); mx = rng.choice(specials + [3.0, 3.0, 3.0])
+    buffered = [rng.choice(specials + [2.0])] * rng.choice([0, 0, 1])
+    return image(k, mn, mx, cs, buffered=buffered)
+
+
+def malformed_case(rng, cid):
+    """C14: mutated images; every outcome must be Ok or Err, and every Ok value must be usable"""
+    b = Builder(rng)
+    r = rng.random()
+    if r < 0.12:
+        img = weird_float_image(rng); code = 15
+    elif r < 0.2:
+        img = mutate(rng, load_ref(rng.choice(REF_FILES))); code = rng.choice([15, 21])
+    else:
+        code, img, *_ = variant_image(rng)
+        img = mutate(rng, img)
+        if rng.random() < 0.15:
+            code = 36 - code                                             # the wrong flavour
+    b.ops.append((code, [0] + img))
+    tot = py_total(img, code == 21)
+    # usable afterwards (a slot left unset by an Err makes the harness ops no-ops: it panics on unwrap,
+    # so only exercise when the image was accepted -- decided by the harness: ops on an unset slot are skipped
+    # by emitting them through a guarded op list)
+    ex = []
+    ex += [(c, [0]) for c in (7, 8, 9, 10, 17)]
+    ex += [(3, [0, rng.choice([0, 1])] + [fb(x) for x in (-1e300, -1.0, 0.0, 1.0, 2.0, 2.5, 1e300)])]
+    ex += [(4, [0, rng.choice([0, 1])] + [fb(q) for q in (0.0, 0.01, 0.25, 0.5, 0.75, 0.99, 1.0)])]
+    ex += [(5, [0, rng.choice([0, 1])] + [fb(x) for x in (0.0, 1.5, 2.5)]), (6, [0, rng.choice([0, 1])])]
+    ex += [(20, [0]), (14, [0]), (16, [0])]
+    if tot is not None and tot < 2 ** 62:
+        ex += [(1, [0, fb(1.5)]), (1, [0, fb(-7.0)]), (11, [0]), (2, [0, 0]), (11, [0]), (4, [0, 0, fb(0.5)]), (20, [0])]
+    b.ops += ex
+    return Case(cid, [], b.ops, tag="td-malformed")
+
+
+def weight_capacity_case(cid):
+    """known: a digest whose total weight is at the edge of u64 overflows on the next update + compress"""
+    img = image(100, 1.0, 3.0, [(1.0, 1), (2.0, 2 ** 64 - 3), (3.0, 1)])
+    ops = [(15, [0] + img), (7, [0]), (1, [0, fb(2.0)]), (1, [0, fb(2.5)]), (11, [0])]
+    return Case(cid, [], ops, tag="td-known-weight-capacity")
+
+
+def size_case(rng, cid, tier):
+    """C18: image size after every power-of-two prefix of a long stream"""
+    b = Builder(rng)
+    k = rng.choice([10, 20, 50, 100, 200, 500])
+    b.new(0, k)
+    n = 2 ** (14 if tier == "quick" else 18)
+    shape = rng.choice(["sorted", "reversed", "random", "dups", "clustered", "doubles", "gauss"])
+    vals = stream(rng, shape, n)
+    p = 1
+    for i, x in enumerate(vals):
+        b.update(0, x)
+        if i + 1 == p:
+            b.dump(0); b.ops.append((20, [0])); b.scalars(0); p *= 2
+    return Case(cid, [], b.ops, tag="td-size-" + shape)
+
+
 _FOCUS = [None]
 
 
@@ -418,6 +738,20 @@ def gen(rng, tier, n=None, focus=None):
     _FOCUS[0] = focus
     n = n or (140 if tier == "quick" else 1500)
     out = []
+    if focus in ("codec", "layout", "foreign", "malformed", "size"):
+        for i in range(n):
+            r = rng.random()
+            if focus == "codec":
+                out.append(codec_case(rng, i, tier))
+            elif focus == "layout":
+                out.append(codec_case(rng, i, tier, twins=False) if r < 0.75 else foreign_case(rng, i))
+            elif focus == "foreign":
+                out.append(foreign_case(rng, i))
+            elif focus == "malformed":
+                out.append(weight_capacity_case(i) if i == 0 else malformed_case(rng, i))
+            else:
+                out.append(size_case(rng, i, tier))
+        return out
     for i in range(n):
         r = rng.random()
         if focus == "c15":
